@@ -124,6 +124,11 @@ def datasets():
     D.append(dict(name='refs_mixed_degenerate', refs=sorted(refs + [ref_one, ref_two, ref_short]), queries=sorted(normal + [one, two, dup]), normal_ids=nid))
     D.append(dict(name='duplicates', refs=[refs[0], ref_dup], queries=sorted(normal + [dup, dup_true, allsame])))
     D.append(dict(name='edge_alignments', refs=refs, queries=edge))
+    # molecules without any label site (only the end-of-molecule row): the reader drops them, so the reference or query LIST can be empty
+    nolab_r, nolab_q = (15, 50000.0, []), (211, 5000.0, [])
+    D.append(dict(name='ref_without_labels', refs=[nolab_r], queries=normal[:3] + [one], expect_empty=True))
+    D.append(dict(name='queries_without_labels', refs=refs, queries=[nolab_q], expect_empty=True))
+    D.append(dict(name='some_maps_without_labels', refs=sorted(refs + [nolab_r]), queries=sorted(normal + [nolab_q]), normal_ids=nid, baseline='normal_only'))
     D.append(dict(name='indels', refs=refs, queries=sorted(ind + edge[:2] + [normal[0]])))
     # real-file witness of open finding F8 (found by a hunt through the real correlation, minimised); after the repair: a regression case
     D.append(dict(name='f8_cli_witness', corpus_only=True,
@@ -164,8 +169,25 @@ def e2e_cases(tier):
     return cases
 
 
+# thresholds low enough for degenerate molecules (one label, two labels, coincident labels) to get a record at all: with the defaults
+# (-pt 27, -ms 1000) most of them are filtered out before the code that builds, slices and writes their rows ever runs
+PERMISSIVE = [['-pt', '0', '-ms', '1', '-bs', '0'], ['-pt', '0.5', '-ms', '500'], ['-pt', '0', '-ms', '1', '-d', '20000', '-p', '8']]
+PERMISSIVE_SETS = ['degenerate_only', 'ref_two_labels', 'duplicates', 'edge_alignments']
+
+
+# molecule selection: ids that match nothing (empty reference / query list), a proper subset, an id listed twice
+ID_FILTERS = [['-rId', '99'], ['-qId', '9999'], ['-rId', '99', '-qId', '9999'], ['-rId', '1'], ['-qId', '101', '103', '103', '202'], ['-rId', '2', '1', '-qId', '205']]
+
+
 def corner_cases(tier):
     cases = []
+    for k, extra in enumerate(ID_FILTERS):
+        for m in (['all', 'best'] if tier == 'quick' else MODES):
+            cases.append(dict(ds='mixed', mode=m, cli=(k % 2 == 0), extra=extra))
+    for k, extra in enumerate(PERMISSIVE):
+        for ds in PERMISSIVE_SETS:
+            for m in (['all', 'best'] if tier == 'quick' else MODES):
+                cases.append(dict(ds=ds, mode=m, cli=(k == 0), extra=extra))
     for k, extra in enumerate(PARAM_CORNERS):
         for m in (['all', 'best'] if tier == 'quick' else MODES):
             cases.append(dict(ds='mixed', mode=m, cli=True, extra=extra))
